@@ -245,15 +245,19 @@ func (a *Animation) DecodeFramesParallel() error {
 		close(results)
 	}()
 
+	// Results arrive in an order that depends on the number of workers and on the
+	// schedule. Report the error of the lowest failing frame index, which is what a
+	// single worker reports, so that the returned error does not depend on either.
 	var firstErr error
+	firstErrIdx := -1
 	for r := range results {
-		if r.err != nil && firstErr == nil {
-			firstErr = r.err
+		if r.err != nil {
+			if firstErrIdx < 0 || r.idx < firstErrIdx {
+				firstErr, firstErrIdx = r.err, r.idx
+			}
 			continue
 		}
-		if r.err == nil {
-			a.Frames[r.idx].Image = r.img
-		}
+		a.Frames[r.idx].Image = r.img
 	}
 	return firstErr
 }
